@@ -24,10 +24,10 @@ def main():
                     out = ["ok", g.get_nodes_from_idx("A", c["idx"])]
                 emit(out)
             else:
-                key = ("t", tuple(c["tree"]))
+                key = ("t", tuple(c["tree"]), c.get("name", "T"))
                 if key not in cache:
                     g = Graph()
-                    g.add_nodes_as_tree("T", c["tree"], "router", "link")
+                    g.add_nodes_as_tree(c.get("name", "T"), c["tree"], "router", "link")
                     cache[key] = g
                 g = cache[key]
                 try:
